@@ -164,3 +164,146 @@ Example C12_hash_edges :
 Proof. cbv zeta. split; [|split]; vm_compute; reflexivity. Qed.
 
 (* TREES: appended below *)
+
+(* AVL trees, both index widths.  Each theorem is closed by [exact] of a
+   lemma proved in Avl/Quiet.v, Avl/Master.v or Avl/FormatFacts.v; the
+   totality theorems cover [remove] and so take its link (Avl/LinkRemove.v)
+   as the explicit premise [remove_spec_statement bits]. *)
+From Stevia Require Import Avl.Impl Avl.Tree Avl.Spec Avl.Format Avl.FormatFacts Avl.Inv Avl.LinkInsert
+  Avl.LinkSteps Avl.Master Avl.Clauses Avl.Capacity Avl.Quiet.
+
+(* every history on an initialised buffer returns normally at every step -
+   no panic (index, overflow, unwrap, explicit), no loop out of fuel.
+   Configurations: u8 tree, every capacity 0 .. 255 (255 is the largest the
+   u8 index type holds; there the allocator cursor wraps); u32 tree, every
+   capacity 0 .. 2^32 - 2.  Keys and values are arbitrary integers. *)
+Theorem C12_avl_run_total_fixed : forall bits, remove_spec_statement bits ->
+  forall capacity ops,
+  okbits bits -> capacity < 2 ^ bits -> (bits <> 8 -> capacity + 1 < 2 ^ bits) ->
+  Forall no_ext ops ->
+  Forall res_ok (run_c bits (init_c capacity capacity) ops) /\
+  length (run_c bits (init_c capacity capacity) ops) = length ops.
+Proof. exact run_total_fixed. Qed.
+Print Assumptions C12_avl_run_total_fixed.
+
+Theorem C12_avl_run_total_u8 : forall capacity ops,
+  remove_spec_statement 8 -> capacity <= 255 -> Forall no_ext ops ->
+  Forall res_ok (run_c 8 (init_c capacity capacity) ops) /\
+  length (run_c 8 (init_c capacity capacity) ops) = length ops.
+Proof. exact run_total_u8. Qed.
+Print Assumptions C12_avl_run_total_u8.
+
+Theorem C12_avl_run_total_u32 : forall capacity ops,
+  remove_spec_statement 32 -> capacity + 1 < 2 ^ 32 -> Forall no_ext ops ->
+  Forall res_ok (run_c 32 (init_c capacity capacity) ops) /\
+  length (run_c 32 (init_c capacity capacity) ops) = length ops.
+Proof. exact run_total_u32. Qed.
+Print Assumptions C12_avl_run_total_u32.
+
+(* capacities 0, 1, 2 and 255 of the u8 tree, explicitly *)
+Theorem C12_avl_run_total_u8_edges : forall ops,
+  remove_spec_statement 8 -> Forall no_ext ops ->
+  Forall (fun c => Forall res_ok (run_c 8 (init_c c c) ops) /\
+                   length (run_c 8 (init_c c c) ops) = length ops) [0; 1; 2; 255].
+Proof. exact run_total_u8_edges. Qed.
+Print Assumptions C12_avl_run_total_u8_edges.
+
+(* with buffer growth, as long as the record count plus one fits the index
+   width (see C08 for [growth_ok]) *)
+Theorem C12_avl_run_total : forall bits, remove_spec_statement bits ->
+  forall capacity ops,
+  okbits bits -> capacity < 2 ^ bits -> (bits <> 8 -> capacity + 1 < 2 ^ bits) ->
+  growth_ok bits (spec_init capacity) ops ->
+  Forall res_ok (run_c bits (init_c capacity capacity) ops) /\
+  length (run_c bits (init_c capacity capacity) ops) = length ops.
+Proof. exact run_total. Qed.
+Print Assumptions C12_avl_run_total.
+
+(* from every state of the master invariant *)
+Theorem C12_avl_run_total_from : forall bits, remove_spec_statement bits ->
+  forall s t fr term ops,
+  Inv bits s t fr term -> okbits bits -> sizecond bits s -> growth_okw bits (abs_of s t) ops ->
+  Forall res_ok (run_c bits s ops) /\ length (run_c bits s ops) = length ops.
+Proof. exact run_total_from. Qed.
+Print Assumptions C12_avl_run_total_from.
+
+(* every single operation in every reachable state *)
+Theorem C12_avl_step_total : forall bits, remove_spec_statement bits ->
+  forall capacity s o,
+  okbits bits -> capacity < 2 ^ bits -> (bits <> 8 -> capacity + 1 < 2 ^ bits) ->
+  reach bits capacity s -> (forall n, o = OExt n -> nrec s + n + 1 < 2 ^ bits) ->
+  exists s' out log, step_c bits s o = Ok (s', out, log) /\ reach bits capacity s'.
+Proof. exact reach_total. Qed.
+Print Assumptions C12_avl_step_total.
+
+(* a zero-filled buffer with any number of records reads as an empty tree of
+   capacity 0 through every read-only query *)
+Theorem C12_avl_zero_reads_empty : forall bits n,
+  let z := mkS 0 0 0 0 0 (repeat node0 n) in
+  (forall k, get z k = Ok (None, [])) /\
+  (forall k, contains z k = Ok (false, [])) /\
+  lowest z = Ok None /\ Avl.Impl.len z = 0 /\ is_empty z = true /\ capacity z = 0 /\ is_full z = true /\
+  (forall k, step_c bits z (OGet k) = Ok (z, RVal None, [])) /\
+  (forall k, step_c bits z (OContains k) = Ok (z, RBool false, [])) /\
+  step_c bits z OLowest = Ok (z, RVal None, []) /\
+  step_c bits z OLen = Ok (z, RNum 0, []) /\
+  step_c bits z OIsEmpty = Ok (z, RBool true, []) /\
+  step_c bits z OCapacity = Ok (z, RNum 0, []).
+Proof. exact zero_buffer_reads_empty. Qed.
+Print Assumptions C12_avl_zero_reads_empty.
+
+(* ... and that state is the all-zero buffer, in both directions *)
+Theorem C12_avl_zero_bytes : forall wbytes lay,
+  (wbytes = 1 \/ wbytes = 4)%nat -> 0 < ksz lay -> 0 < vsz lay -> forall n,
+  encode wbytes lay (mkS 0 0 0 0 0 (repeat node0 n))
+  = repeat 0 (hdr_len wbytes + n * N.to_nat (rec_len wbytes lay)).
+Proof. exact encode_zero_state. Qed.
+Print Assumptions C12_avl_zero_bytes.
+
+Theorem C12_avl_zero_buffer_decodes : forall wbytes lay,
+  (wbytes = 1 \/ wbytes = 4)%nat -> 0 < ksz lay -> 0 < vsz lay -> forall n,
+  decode wbytes lay (repeat 0 (hdr_len wbytes + n * N.to_nat (rec_len wbytes lay)))
+  = Some (mkS 0 0 0 0 0 (repeat node0 n)).
+Proof. exact decode_zeros. Qed.
+Print Assumptions C12_avl_zero_buffer_decodes.
+
+(* ---- examples at the edges ---- *)
+
+(* the u8 tree at its largest capacity: 255 insertions succeed (the cursor
+   wraps to 0 on the last one), the tree is full and refuses the next one
+   without a panic; a removal frees a slot which is handed out again *)
+Example C12_avl_u8_capacity_255 :
+  run_c 8 (init_c 255 255)
+    (map (fun i => OInsert (Z.of_nat i) 7%Z) (List.seq 0 255) ++
+     [OIsFull; OInsert 1000 0; OLen; ORemove 17; OIsFull; OInsert 1000 1; OGet 1000; OInsert 1001 1;
+      OLowest; OCapacity]%Z)
+  = map Ok (map (fun i => RSlot (Some (N.of_nat (S i)))) (List.seq 0 255) ++
+            [RBool true; RSlot None; RNum 255; RVal (Some 7%Z); RBool false; RSlot (Some 18);
+             RVal (Some 1%Z); RSlot None; RVal (Some 0%Z); RNum 255]).
+Proof. vm_compute. reflexivity. Qed.
+
+(* capacities 0, 1 and 2; keys and values at the i64 extremes *)
+Example C12_avl_edges :
+  run_c 8 (init_c 0 0)
+    [OInsert 5 5; ORemove 5; OGet 5; OGetMut 5 6; OGetMut0 5; OContains 5; OLowest; OLen; OIsEmpty;
+     OIsFull; OCapacity; OOpenMut; OOpenRo]%Z
+  = map Ok [RSlot None; RVal None; RVal None; RVal None; RVal None; RBool false; RVal None; RNum 0;
+            RBool true; RBool true; RNum 0; RUnit; RUnit] /\
+  run_c 32 (init_c 0 0)
+    [OInsert 5 5; ORemove 5; OGet 5; OGetMut 5 6; OGetMut0 5; OContains 5; OLowest; OLen; OIsEmpty;
+     OIsFull; OCapacity; OOpenMut; OOpenRo]%Z
+  = map Ok [RSlot None; RVal None; RVal None; RVal None; RVal None; RBool false; RVal None; RNum 0;
+            RBool true; RBool true; RNum 0; RUnit; RUnit] /\
+  run_c 8 (init_c 1 1)
+    [OInsert (-9223372036854775808) 9223372036854775807; OInsert 9223372036854775807 1; OIsFull;
+     OLowest; ORemove 9223372036854775807; ORemove (-9223372036854775808); OIsEmpty;
+     OInsert 9223372036854775807 (-9223372036854775808); OGet 9223372036854775807]%Z
+  = map Ok [RSlot (Some 1); RSlot None; RBool true; RVal (Some (-9223372036854775808)%Z); RVal None;
+            RVal (Some 9223372036854775807%Z); RBool true; RSlot (Some 1);
+            RVal (Some (-9223372036854775808)%Z)] /\
+  run_c 8 (init_c 2 2)
+    [OInsert 4 40; OInsert 6 60; OInsert 7 70; ORemove 4; OInsert 7 70; OLowest; ORemove 6; ORemove 7;
+     OLowest; OIsEmpty]%Z
+  = map Ok [RSlot (Some 1); RSlot (Some 2); RSlot None; RVal (Some 40%Z); RSlot (Some 1);
+            RVal (Some 6%Z); RVal (Some 60%Z); RVal (Some 70%Z); RVal None; RBool true].
+Proof. repeat split; vm_compute; reflexivity. Qed.
